@@ -793,14 +793,10 @@ class Exec:
                     out.append((v, q)); continue
                 x = self.toint(v, e)
                 r = z3.FreshInt("pow2test")
-                k = z3.FreshInt("k")
-                kk = z3.Int("kk_q")
-                # Lean lemma pow2_test: x > 0 -> (x &&& (x-1) = 0 <-> exists k, x = 2^k); x = 0 -> 0
-                q.assume(z3.And(r >= 0, z3.Implies(x == 0, r == 0),
-                                z3.Implies(z3.And(x > 0, r == 0), z3.And(k >= 0, x == pow2(k))),
-                                z3.Implies(z3.And(x > 0, r != 0), z3.ForAll([kk], z3.Implies(kk >= 0, x != pow2(kk))))))
+                # X & (X - 1): only "a non-negative integer" is assumed about the result (for X >= 0).  Nothing the verified
+                # contracts claim depends on WHICH values pass the power-of-two test, so no bit-level lemma is trusted here.
+                q.assume(r >= 0)
                 self.oblige("pow2-test-operand-nonneg", q, x >= 0, e)
-                q.ghost.setdefault("pow2_exponent", {})[str(x)] = k
                 out.append((r, q))
             return out
         out = []
